@@ -184,14 +184,17 @@ class Findings:
 
     def __init__(self):
         self.findings: dict[str, dict[str, str]] = {}
+        self.replays: dict[str, dict[str, str]] = {}
         self.fixed: list[str] = []
         if KNOWN_FINDINGS.exists():
             for line in KNOWN_FINDINGS.read_text().splitlines():
                 line = line.strip()
                 if line.startswith("finding:"):
-                    m = re.match(r"finding:\s+property=(\S+)\s+sig=(\S+)\s*(?:::\s*(.*))?$", line)
+                    m = re.match(r"finding:\s+property=(\S+)\s+sig=(\S+)\s*(?:replay=(\S+)\s*)?(?:::\s*(.*))?$", line)
                     if m:
-                        self.findings.setdefault(m.group(1), {})[m.group(2)] = m.group(3) or ""
+                        self.findings.setdefault(m.group(1), {})[m.group(2)] = m.group(4) or ""
+                        if m.group(3):
+                            self.replays.setdefault(m.group(1), {})[m.group(2)] = m.group(3)
                 elif line.startswith("fixed:"):
                     self.fixed.append(line)
 
